@@ -46,6 +46,9 @@ TOLERANCES = {
     'input': 'bytes of every leaf array of x identical before / after',
     'repeat': 'second out-of-place call equals the first exactly (pyfftw '
               'operators: within the in-place tolerance)',
+    'arraylike': 'op(ndarray / nested list) equals op(element) within the '
+                 'in-place tolerance (functionals: 16*eps*sqrt(n) relative; '
+                 'the cast copy may have another memory layout)',
     'bad_out': 'bytes of the rejected out identical before / after',
 }
 ASSUMPTIONS = [
@@ -195,6 +198,25 @@ def compare(got, ref, spc, exact, ktol, fft=False):
     return None
 
 
+def _scalar_same(a, b, k, eps=np.finfo(float).eps):
+    """Field results: identical (NaN == NaN), or within k*eps relative."""
+    if a == b or (a != a and b != b):
+        return True
+    if k and np.isfinite(a) and np.isfinite(b):
+        return abs(a - b) <= k * eps * max(abs(a), abs(b))
+    return False
+
+
+def _dom_eps(x, dom):
+    e = np.finfo(float).eps
+    if isinstance(dom, Field):
+        return e
+    for a in _leaves(x, dom):
+        if a.dtype.kind in 'fc':
+            e = max(e, np.finfo(a.dtype).eps)
+    return e
+
+
 class Counter(object):
     """Counts executions of the implementation (instance-level proxy)."""
 
@@ -331,9 +353,7 @@ def run_case(desc):
                             exc=e),
                         '{}: second op(x) raised {!r}'.format(name, e))
     if isinstance(ran, Field):
-        same = (rr == r) or (rr != rr and r != r) or \
-            abs(rr - r) <= 1e-12 * abs(r) and fft
-        msg = None if same else '{!r} vs {!r}'.format(rr, r)
+        msg = None if _scalar_same(rr, r, 0) else '{!r} vs {!r}'.format(rr, r)
     else:
         msg = compare(rr, r, ran, exact=not zoo.uses_pyfftw(op), ktol=K_TOL,
                       fft=fft)
@@ -411,8 +431,10 @@ def run_case(desc):
             raise Violation(sig('not-in-range', form),
                             name + ': result for array-like x not in range')
         if isinstance(ran, Field):
-            msg = None if (ra == r or (ra != ra and r != r)) else \
-                '{!r} vs {!r}'.format(ra, r)
+            # (the cast copy may be laid out differently: summation order)
+            msg = None if _scalar_same(ra, r, K_TOL * np.sqrt(
+                max(flat.rdim(dom), 1)) if not isinstance(dom, Field) else 0,
+                _dom_eps(x, dom)) else '{!r} vs {!r}'.format(ra, r)
         else:
             # the cast copy may have another memory layout than x
             msg = compare(ra, r, ran, ent.exact, ent.ktol, fft)
@@ -486,9 +508,16 @@ def run_case(desc):
     return Outcome('ok', strata=strata, nontrivial=nontrivial)
 
 
+# entries that cannot reach status 'ok': classes documented to offer no
+# evaluation, and entries lying completely inside a known finding
+NEVER_OK = {'func.MoreauEnvelope', 'func.InfimalConvolution',
+            'func.FunctionalDefaultConvexConjugate', 'ufunc.modf',
+            'LinDeformFixedDisp', 'LinDeformFixedTempl',
+            'fprox.IndicatorNuclearNormUnitBall'}
 REQUIRED_STRATA = ['inplace', 'functional', 'x-array', 'x-list', 'x-F',
                    'x-strided', 'out-F', 'out-strided'] + \
     ['junk-' + k for k in JUNK_X] + ['badout-' + k for k in BAD_OUT] + \
-    ['entry:' + n for n, e in zoo.ENTRIES.items() if e.c03]
+    ['entry:' + n for n, e in zoo.ENTRIES.items()
+     if e.c03 and n not in NEVER_OK]
 
 ASSUMPTIONS = ASSUMPTIONS + zoo.coverage_statement()
